@@ -220,6 +220,14 @@ func (w *world) run(s reqSpec) {
 			r.Count("inbound-spoofed:" + k)
 		}
 	}
+	if s.tls {
+		// connection coalescing (HTTP/2, HTTP/3) / domain fronting (HTTP/1.1): authority vs the connection's SNI
+		rel := "same-as-sni"
+		if hostnameOf(inHost) != hostnameOf(s.sni) {
+			rel = "differs-from-sni"
+		}
+		r.Count(fmt.Sprintf("authority:%s proto:%d", rel, s.proto))
+	}
 	if s.port == 443 {
 		r.Count("port:443")
 	} else {
@@ -316,9 +324,47 @@ func genReq(rng *hlib.Rng) reqSpec {
 	return s
 }
 
+// genCoalesced: one TLS / QUIC connection (fixed SNI, peer, protocol, gateway port) carrying several requests, as
+// HTTP/2 and HTTP/3 clients do when a certificate covers several hosts: the first request is for the host the
+// connection was opened for, the following ones for other hosts (other tunnels under the same root, with or without
+// an explicit port, mixed case). HTTP/1.1 keep-alive connections reusing a connection for another Host are included.
+func genCoalesced(rng *hlib.Rng) []reqSpec {
+	base := genReq(rng)
+	base.tls = true
+	base.proto = 1 + rng.Intn(3)
+	if rng.Intn(4) != 0 {
+		base.proto = 2 + rng.Intn(2)
+	}
+	first := hlib.Pick(rng, tunnelHosts)
+	base.sni = first
+	n := 2 + rng.Intn(3)
+	out := make([]reqSpec, 0, n)
+	for j := 0; j < n; j++ {
+		s := genReq(rng) // fresh method / path / header set
+		s.proto, s.tls, s.sni, s.remote, s.port = base.proto, true, base.sni, base.remote, base.port
+		authority := first
+		if j > 0 {
+			authority = hlib.Pick(rng, tunnelHosts)
+			switch rng.Intn(6) {
+			case 0:
+				authority = mixCase(rng, authority)
+			case 1:
+				authority += ":" + strconv.Itoa(base.port)
+			case 2:
+				authority += ":" + strconv.Itoa(hlib.Pick(rng, ports))
+			}
+		}
+		// replace the Host line of the generated request text
+		lines := strings.SplitN(s.raw, "\r\n", 3)
+		s.raw = lines[0] + "\r\nHost: " + authority + "\r\n" + lines[2]
+		out = append(out, s)
+	}
+	return out
+}
+
 func main() {
 	r = hlib.Start()
-	r.Rule = "case = one request (proto 1.1/2/3, TLS+SNI or plain, Host, peer address, gateway port, inbound header set) served by the real proxy handler chain and received by a recording tunnel backend; non-trivial = distinct request line; header sets mix spoofed forwarding headers (duplicated, mixed-case names, listed in Connection) with benign ones"
+	r.Rule = "case = one request (proto 1.1/2/3, TLS+SNI or plain, Host, peer address, gateway port, inbound header set) served by the real proxy handler chain and received by a recording tunnel backend; non-trivial = distinct request line; header sets mix spoofed forwarding headers (duplicated, mixed-case names, listed in Connection) with benign ones; about one request in three belongs to a coalesced connection (one SNI / peer / protocol, several authorities)"
 	rng := hlib.NewRng(hlib.NewRng(r.Seed).U64()) // re-seed through one output: consecutive seeds must not give shifted copies of one stream
 	w := newWorld()
 	if r.Replay != "" {
@@ -357,6 +403,13 @@ func main() {
 		n = 120000
 	}
 	for i := 0; i < n; i++ {
+		if rng.Intn(8) == 0 {
+			for _, s := range genCoalesced(rng) {
+				w.run(s)
+				i++
+			}
+			continue
+		}
 		w.run(genReq(rng))
 	}
 	r.Extra["tunnel_dials"] = len(w.ft.dials)
